@@ -111,14 +111,17 @@ void g_string_printf(GString *string, const gchar *format, ...) {
 }
 
 /* ---------------- GQueue ---------------- */
+/* ring buffer: pop is O(1) (no shifting), so that the 128-entry uplink queues stay cheap */
 typedef struct {
 	GQueue pub;            /* only pub.length is meaningful */
+	guint first;
 	gpointer it[VERIF_QCAP];
 } VQueue;
+static guint v_wrap(guint i) { return i >= VERIF_QCAP ? i - VERIF_QCAP : i; }
 
 GQueue *g_queue_new(void) {
 	VQueue *q = malloc(sizeof(VQueue));
-	q->pub.head = NULL; q->pub.tail = NULL; q->pub.length = 0;
+	q->pub.head = NULL; q->pub.tail = NULL; q->pub.length = 0; q->first = 0;
 	return &q->pub;
 }
 void g_queue_free(GQueue *queue) { free(queue); }
@@ -127,19 +130,18 @@ guint g_queue_get_length(GQueue *queue) { return queue->length; }
 void g_queue_push_tail(GQueue *queue, gpointer data) {
 	VQueue *q = (VQueue *)queue;
 	__CPROVER_assume(q->pub.length < VERIF_QCAP); /* bound: queue capacity */
-	q->it[q->pub.length++] = data;
+	q->it[v_wrap(q->first + q->pub.length)] = data;
+	q->pub.length++;
 }
 gpointer g_queue_peek_head(GQueue *queue) {
 	VQueue *q = (VQueue *)queue;
-	return q->pub.length == 0 ? NULL : q->it[0];
+	return q->pub.length == 0 ? NULL : q->it[q->first];
 }
 gpointer g_queue_pop_head(GQueue *queue) {
 	VQueue *q = (VQueue *)queue;
 	if (q->pub.length == 0) return NULL;
-	gpointer r = q->it[0];
-	for (guint i = 1; i < VERIF_QCAP; i++) {
-		if (i < q->pub.length) q->it[i - 1] = q->it[i];
-	}
+	gpointer r = q->it[q->first];
+	q->first = v_wrap(q->first + 1);
 	q->pub.length--;
 	return r;
 }
@@ -147,15 +149,18 @@ static GList verif_find_cell;
 GList *g_queue_find_custom(GQueue *queue, gconstpointer data, GCompareFunc func) {
 	VQueue *q = (VQueue *)queue;
 	for (guint i = 0; i < VERIF_QCAP; i++) {
-		if (i < q->pub.length && func(q->it[i], data) == 0) {
-			verif_find_cell.data = q->it[i];
+		if (i < q->pub.length && func(q->it[v_wrap(q->first + i)], data) == 0) {
+			verif_find_cell.data = q->it[v_wrap(q->first + i)];
 			return &verif_find_cell;
 		}
 	}
 	return NULL;
 }
 /* model accessor for harnesses (not glib API) */
-gpointer verif_queue_nth(GQueue *queue, guint n) { return ((VQueue *)queue)->it[n]; }
+gpointer verif_queue_nth(GQueue *queue, guint n) {
+	VQueue *q = (VQueue *)queue;
+	return q->it[v_wrap(q->first + n)];
+}
 
 /* ---------------- GHashTable ---------------- */
 struct _GHashTable {
